@@ -3,6 +3,7 @@ package refotr_test
 import (
 	"bytes"
 	"fmt"
+	"math/big"
 	"testing"
 
 	"github.com/coyim/otr3"
@@ -28,6 +29,10 @@ func (s *otrSide) HandleSMPEvent(e otr3.SMPEvent, pp int, question string) {
 	}
 }
 
+func (s *otrSide) HandleErrorMessage(ec otr3.ErrorCode) []byte {
+	return []byte(ec.String())
+}
+
 func (s *otrSide) ReceivedSymmetricKey(usage uint32, usageData []byte, symkey []byte) {
 	s.symUse = append(s.symUse, usage)
 	s.symKeys = append(s.symKeys, append([]byte{}, symkey...))
@@ -45,6 +50,7 @@ func newOtrSide(t *testing.T, version uint16, key *otr3.DSAPrivateKey, seed stri
 	s := &otrSide{t: t, c: c}
 	c.SetSMPEventHandler(s)
 	c.SetReceivedKeyHandler(s)
+	c.SetErrorMessageHandler(s)
 	return s
 }
 
@@ -216,8 +222,29 @@ func peerToOtr(t *testing.T, p *Peer, o *otrSide, text string) {
 	if string(plain) != text {
 		t.Fatalf("otr3 delivered %q, want %q", plain, text)
 	}
-	if len(out) != 0 {
-		t.Fatalf("otr3 replied to a data message with %d messages", len(out))
+	deliverHeartbeats(t, p, out)
+}
+
+// deliverHeartbeats hands otr3's unsolicited replies to a data message to
+// the Peer. otr3 sends a heartbeat (empty text, ignore-unreadable flag) when
+// it has not sent anything for a while; nothing else is acceptable here.
+func deliverHeartbeats(t *testing.T, p *Peer, out [][]byte) {
+	t.Helper()
+	for _, m := range out {
+		n := len(p.Inbox)
+		reply, err := p.Receive(m)
+		if err != nil || len(reply) != 0 || len(p.Inbox) != n+1 {
+			t.Fatalf("heartbeat not accepted: %v", err)
+		}
+		d := p.Inbox[n]
+		if len(d.Text) != 0 || d.Flags&FlagIgnoreUnreadable == 0 {
+			t.Fatalf("otr3 replied to a data message with a non-heartbeat: %+v", d)
+		}
+		for _, tl := range d.TLVs {
+			if tl.Type != TLVPadding {
+				t.Fatalf("heartbeat carries TLV type %d", tl.Type)
+			}
+		}
 	}
 }
 
@@ -290,13 +317,14 @@ func TestInteropDelayedDelivery(t *testing.T) {
 				t.Fatal(err)
 			}
 			om := o.send(fmt.Sprintf("o%d", round))
-			plain, _ := o.recv(pm)
+			plain, hb := o.recv(pm)
 			if string(plain) != fmt.Sprintf("p%d", round) {
 				t.Fatalf("otr3 delivered %q", plain)
 			}
 			if _, err := p.Receive(om[0]); err != nil {
 				t.Fatal(err)
 			}
+			deliverHeartbeats(t, p, hb)
 			if got := string(p.Inbox[len(p.Inbox)-1].Text); got != fmt.Sprintf("o%d", round) {
 				t.Fatalf("Peer delivered %q", got)
 			}
@@ -304,41 +332,136 @@ func TestInteropDelayedDelivery(t *testing.T) {
 	})
 }
 
-// Old MAC keys otr3 reveals must be well-formed; the ones the Peer reveals
-// are accepted by otr3 (covered by normal traffic). Additionally check that
-// every MAC key otr3 reveals is one the Peer actually used for sending.
+// macLabel names a MAC key of one pairing from the Peer's point of view.
+type macLabel struct {
+	our, their uint32
+	send       bool // true: the Peer's sending MAC key (otr3's receiving key)
+	key        []byte
+}
+
+// pairMACs lists both MAC keys of all (up to four) pairings the Peer holds.
+func pairMACs(p *Peer) []macLabel {
+	var out []macLabel
+	ours := []struct {
+		id uint32
+		k  DHPair
+	}{{p.OurKeyID - 1, p.OurPrev}, {p.OurKeyID, p.OurCur}}
+	theirs := []struct {
+		id uint32
+		k  *big.Int
+	}{{p.TheirKeyID - 1, p.TheirPrev}, {p.TheirKeyID, p.TheirCur}}
+	for _, o := range ours {
+		for _, th := range theirs {
+			if o.k.Priv == nil || th.k == nil {
+				continue
+			}
+			k := DeriveDataKeys(o.k.Priv, o.k.Pub, th.k)
+			out = append(out, macLabel{o.id, th.id, true, k.SendMAC}, macLabel{o.id, th.id, false, k.RecvMAC})
+		}
+	}
+	return out
+}
+
+// MAC-key disclosure by otr3, observed through the oracle: every revealed
+// key must be a MAC key of a pairing of this session, and must no longer be
+// acceptable to the Peer (the key generation it belongs to is retired on
+// the Peer's side once this very message has been processed). The Peer's own
+// disclosures are exercised by the same traffic (otr3 accepts the messages).
 func TestInteropRevealedMACKeys(t *testing.T) {
 	forEachInterop(t, func(t *testing.T, version uint16, p *Peer, o *otrSide) {
-		var sendMACs [][]byte
-		revealed := 0
-		for i := 0; i < 12; i++ {
-			k, _ := p.SendKeys()
-			sendMACs = append(sendMACs, k.SendMAC)
-			peerToOtr(t, p, o, fmt.Sprintf("a%d", i))
+		var known []macLabel
+		remember := func() {
+			for _, l := range pairMACs(p) {
+				dup := false
+				for _, k := range known {
+					dup = dup || bytes.Equal(k.key, l.key)
+				}
+				if !dup {
+					known = append(known, l)
+				}
+			}
+		}
+		remember()
+		nPeerSend, nPeerRecv, nUnknown, nLive, peerRevealed := 0, 0, 0, 0, 0
+		nDup, nNeverUsed := 0, 0
+		var usedForSend, seen [][]byte
+		has := func(set [][]byte, k []byte) bool {
+			for _, s := range set {
+				if bytes.Equal(s, k) {
+					return true
+				}
+			}
+			return false
+		}
+		rnd := newRand("mac pattern")
+		for i := 0; i < 30; i++ {
+			if rnd.Uint(2) == 0 {
+				sk, _ := p.SendKeys()
+				usedForSend = append(usedForSend, sk.SendMAC)
+				m, err := p.Send([]byte(fmt.Sprintf("a%d", i)), nil, 0)
+				if err != nil {
+					t.Fatal(err)
+				}
+				d, _ := ParseArmored(m)
+				peerRevealed += len(d.(*Data).OldMACKeys) / 20
+				plain, hb := o.recv(m)
+				if string(plain) != fmt.Sprintf("a%d", i) {
+					t.Fatalf("otr3 delivered %q", plain)
+				}
+				deliverHeartbeats(t, p, hb)
+				remember()
+				continue
+			}
 			msgs := o.send(fmt.Sprintf("b%d", i))
 			m, err := ParseArmored(msgs[0])
 			if err != nil {
 				t.Fatal(err)
 			}
-			d := m.(*Data)
-			for j := 0; j+20 <= len(d.OldMACKeys); j += 20 {
-				revealed++
-				key := d.OldMACKeys[j : j+20]
-				found := false
-				for _, s := range sendMACs {
-					found = found || bytes.Equal(s, key)
-				}
-				if !found {
-					t.Logf("otr3 revealed a MAC key that is not one of the Peer's sending MAC keys (message %d)", i)
-				}
-			}
 			if _, err := p.Receive(msgs[0]); err != nil {
 				t.Fatal(err)
 			}
+			remember()
+			live := pairMACs(p)
+			d := m.(*Data)
+			for j := 0; j+20 <= len(d.OldMACKeys); j += 20 {
+				key := d.OldMACKeys[j : j+20]
+				var lab *macLabel
+				for k := range known {
+					if bytes.Equal(known[k].key, key) {
+						lab = &known[k]
+					}
+				}
+				switch {
+				case lab == nil:
+					nUnknown++
+					t.Errorf("message %d: otr3 revealed a key that is no MAC key of this session", i)
+				case lab.send:
+					nPeerSend++
+					if has(seen, key) {
+						nDup++
+					} else if !has(usedForSend, key) {
+						nNeverUsed++
+					}
+					seen = append(seen, append([]byte{}, key...))
+				default:
+					nPeerRecv++
+				}
+				for _, l := range live {
+					if !l.send && bytes.Equal(l.key, key) {
+						nLive++
+						t.Errorf("message %d: otr3 revealed MAC key (our %d, their %d) that the Peer would still accept", i, l.our, l.their)
+					}
+				}
+			}
 		}
-		if revealed == 0 {
-			t.Log("otr3 never revealed any MAC key in 12 round trips")
+		if nPeerSend == 0 {
+			t.Error("otr3 never revealed any of its receiving MAC keys")
 		}
+		if peerRevealed == 0 {
+			t.Error("the Peer never revealed a MAC key")
+		}
+		t.Logf("otr3 revealed %d of its receiving MAC keys (%d repeats, %d for pairings the Peer never sent with), %d of its sending MAC keys, %d unknown, %d still live; Peer revealed %d",
+			nPeerSend, nDup, nNeverUsed, nPeerRecv, nUnknown, nLive, peerRevealed)
 	})
 }
 
@@ -390,7 +513,10 @@ func TestInteropSMPOtrInitiates(t *testing.T) {
 							if err != nil {
 								t.Fatalf("SMPStep(type %d): %v", tl.Type, err)
 							}
-							if r != SMPInProgress {
+							if r == SMPAborted && result == SMPFailed {
+								// Spec: after message 4 the initiator sends nothing.
+								t.Logf("DEVIATION: otr3 as SMP initiator sent an abort TLV (value length %d) after message 4 reported a failed comparison", len(tl.Value))
+							} else if r != SMPInProgress {
 								result = r
 							}
 							if out != nil {
@@ -474,7 +600,10 @@ func TestInteropSMPPeerInitiates(t *testing.T) {
 							if err != nil {
 								t.Fatalf("SMPStep(type %d): %v", tl.Type, err)
 							}
-							if r != SMPInProgress {
+							if r == SMPAborted && result == SMPFailed {
+								// Spec: after message 4 the initiator sends nothing.
+								t.Logf("DEVIATION: otr3 as SMP initiator sent an abort TLV (value length %d) after message 4 reported a failed comparison", len(tl.Value))
+							} else if r != SMPInProgress {
 								result = r
 							}
 							if out != nil {
@@ -489,7 +618,13 @@ func TestInteropSMPPeerInitiates(t *testing.T) {
 					toPeer = append(toPeer, out...)
 				}
 			}
-			if result != c.want {
+			if c.want == SMPFailed && result == SMPAborted {
+				// Spec: the responder sends message 4 regardless of the
+				// comparison result. otr3 instead answers a failed
+				// comparison with an abort TLV (see report). refotr stays
+				// spec-conformant; both outcomes mean "not verified".
+				t.Logf("DEVIATION: otr3 as SMP responder sent an abort TLV instead of SMP message 4 after a failed comparison")
+			} else if result != c.want {
 				t.Fatalf("%+v: Peer result %d, want %d", c, result, c.want)
 			}
 			if o.lastEvent() != c.event {
@@ -539,7 +674,8 @@ func TestInteropExtraKey(t *testing.T) {
 				t.Fatal(err)
 			}
 			n := len(o.symKeys)
-			o.recv(m)
+			_, hb := o.recv(m)
+			deliverHeartbeats(t, p, hb)
 			if len(o.symKeys) != n+1 || !bytes.Equal(o.symKeys[n], want) || o.symUse[n] != 9 {
 				t.Fatalf("otr3 received key handler: %d keys", len(o.symKeys)-n)
 			}
@@ -643,5 +779,73 @@ func TestInteropFragmentExactMultiple(t *testing.T) {
 			}
 		}
 		t.Logf("payload %d bytes in pieces of %d: otr3 produced %d fragments", len(whole), len(whole)/div, len(msgs))
+	}
+}
+
+// Whitespace tags, queries and error messages produced by otr3 are
+// recognised by the refotr parsers.
+func TestInteropTagsQueriesErrors(t *testing.T) {
+	ka, kb := testKeys(t)
+	for _, version := range []uint16{2, 3} {
+		o := newOtrSide(t, version, kb, fmt.Sprintf("misc otr3 v%d", version))
+		o.c.Policies.SendWhitespaceTag()
+		out := o.send("hello there")
+		if len(out) != 1 {
+			t.Fatalf("otr3 produced %d messages", len(out))
+		}
+		stripped, vs, found := FindWhitespaceTag(out[0])
+		if !found || string(stripped) != "hello there" || len(vs) != 1 || vs[0] != int(version) {
+			t.Fatalf("v%d whitespace tag: %q %v %v", version, stripped, vs, found)
+		}
+		if !bytes.Contains(out[0], WhitespaceTag(version == 2, version == 3)) {
+			t.Fatalf("v%d: otr3 tag differs from WhitespaceTag()", version)
+		}
+		// The Peer starts an AKE on the tag and the session comes up.
+		p := NewPeer(version, &ka.PrivateKey, newRand("misc peer"), 0x4711)
+		shuttle(t, p, o, out, nil)
+		checkInteropSession(t, p, o, kb)
+		if len(p.Inbox) != 1 || string(p.Inbox[0].Text) != "hello there" || p.Inbox[0].Encrypted {
+			t.Fatalf("tagged plaintext not delivered: %+v", p.Inbox)
+		}
+
+		// otr3's query names exactly the allowed version.
+		q := o.c.QueryMessage()
+		if got, ok := ParseQuery(q); !ok || len(got) != 1 || got[0] != int(version) {
+			t.Fatalf("v%d query %q parsed as %v %v", version, q, got, ok)
+		}
+
+		// A data message with a wrong MAC is refused by otr3 and answered
+		// with an OTR error message (an error handler is installed).
+		forged, err := p.BuildData(DataSpec{Text: []byte("forged"), MACKey: make([]byte, 20), OldMAC: []byte{}})
+		if err != nil {
+			t.Fatal(err)
+		}
+		plain, toSend, rerr := o.c.Receive(otr3.ValidMessage(Armor(forged.Raw())))
+		if rerr == nil || plain != nil {
+			t.Fatalf("v%d: otr3 accepted a data message with a wrong MAC", version)
+		}
+		sawError := false
+		for _, e := range o.record(toSend) {
+			if IsError(e) {
+				sawError = true
+				if _, err := p.Receive(e); err != nil || len(p.PeerErrors) == 0 {
+					t.Fatal("error message not recorded by the Peer")
+				}
+			}
+		}
+		if !sawError {
+			t.Errorf("v%d: otr3 sent no error message for a forged data message (%d replies)", version, len(toSend))
+		}
+		peerToOtr(t, p, o, "still works")
+
+		// otr3 ends the session: the Peer sees the disconnected TLV.
+		bye, err := o.c.End()
+		if err != nil || len(bye) != 1 {
+			t.Fatalf("End: %v, %d messages", err, len(bye))
+		}
+		if _, err := p.Receive(o.record(bye)[0]); err != nil || !p.Finished || p.Encrypted {
+			t.Fatalf("v%d: disconnect not processed: %v", version, err)
+		}
+		o.checkEmitted(version)
 	}
 }
